@@ -56,6 +56,9 @@ def analyse(prop: str, repo: str) -> Tuple[str, List[dict]]:
     try:
         run = Run(prop, Model(repo), "quick", 0)
         mod.check(run)
+        from sa.state import finalize
+
+        finalize(run)
     except Exception as e:  # noqa
         return f"error: {type(e).__name__}: {e}", []
     known = load_known()
